@@ -27,6 +27,12 @@ pub enum Place {
 }
 
 impl Place {
+    pub fn root(&self) -> String {
+        match self {
+            Place::Var(n, _) => n.clone(),
+            Place::Field(b, _, _) | Place::Index(b, _, _, _) => b.root(),
+        }
+    }
     pub fn ty(&self) -> Ty {
         match self {
             Place::Var(_, t) | Place::Field(_, _, t) | Place::Index(_, _, t, _) => t.clone(),
@@ -53,6 +59,13 @@ pub struct Cx<'g> {
     mut_methods: Vec<String>,
     /// `&mut` parameters of semantic-model types (returned with the result)
     pub mut_params: Vec<String>,
+    /// `let x = &mut place;` aliases: variable -> place (every use re-reads / writes the place)
+    aliases: Vec<Vec<(String, Place)>>,
+    /// enclosing `while` loops: the tuple of loop-carried variables of each
+    loop_stack: Vec<Vec<String>>,
+    /// fuel expressions (manifest) of the `while` loops of this fn, consumed in source order
+    pub fuels: Vec<String>,
+    fuel_next: usize,
 }
 
 impl<'g> Cx<'g> {
@@ -79,6 +92,10 @@ impl<'g> Cx<'g> {
             self_dirty: false,
             mut_methods,
             mut_params: Vec::new(),
+            aliases: vec![Vec::new()],
+            loop_stack: Vec::new(),
+            fuels: Vec::new(),
+            fuel_next: 0,
         }
     }
 
@@ -102,6 +119,18 @@ impl<'g> Cx<'g> {
         self.scopes.last_mut().unwrap().push((name.to_string(), ty));
     }
 
+    /// refine the type of a variable declared with an incomplete type (`let mut x = None;` … `x = Some(e)`)
+    pub fn retype(&mut self, name: &str, ty: Ty) {
+        for s in self.scopes.iter_mut().rev() {
+            for (n, t) in s.iter_mut().rev() {
+                if n == name {
+                    *t = ty;
+                    return;
+                }
+            }
+        }
+    }
+
     pub fn lookup(&self, name: &str) -> Option<Ty> {
         for s in self.scopes.iter().rev() {
             for (n, t) in s.iter().rev() {
@@ -111,6 +140,24 @@ impl<'g> Cx<'g> {
             }
         }
         None
+    }
+
+    /// the place a `let x = &mut place` variable stands for
+    pub fn alias_of(&self, name: &str) -> Option<Place> {
+        // an alias is shadowed by a later ordinary declaration in an inner scope
+        for (sc, al) in self.scopes.iter().zip(self.aliases.iter()).rev() {
+            if let Some((_, p)) = al.iter().rev().find(|(n, _)| n == name) {
+                return Some(p.clone());
+            }
+            if sc.iter().any(|(n, _)| n == name) {
+                return None;
+            }
+        }
+        None
+    }
+
+    pub fn unused_fuel(&self) -> bool {
+        self.fuel_next < self.fuels.len()
     }
 
     pub fn check_local_name(&self, name: &str, span: proc_macro2::Span) -> R<()> {
@@ -172,7 +219,19 @@ impl<'g> Cx<'g> {
     pub fn assigned_in_expr(&self, e: &syn::Expr) -> Vec<String> {
         let mut a = Assigned::new(&self.mut_methods);
         a.visit_expr(e);
-        a.out.into_iter().filter(|n| self.lookup(n).is_some()).collect()
+        self.resolve_assigned(a.out)
+    }
+    /// assigned variables: known in the current scopes, aliases replaced by the variable they point into
+    fn resolve_assigned(&self, out: std::collections::BTreeSet<String>) -> Vec<String> {
+        let mut r: std::collections::BTreeSet<String> = std::collections::BTreeSet::new();
+        for n in out {
+            if let Some(pl) = self.alias_of(&n) {
+                r.insert(pl.root());
+            } else if self.lookup(&n).is_some() {
+                r.insert(n);
+            }
+        }
+        r.into_iter().collect()
     }
     pub fn assigned_in_block(&self, b: &syn::Block, bound: &[String]) -> Vec<String> {
         let mut a = Assigned::new(&self.mut_methods);
@@ -180,7 +239,7 @@ impl<'g> Cx<'g> {
             a.declare(n);
         }
         a.visit_block(b);
-        a.out.into_iter().filter(|n| self.lookup(n).is_some()).collect()
+        self.resolve_assigned(a.out)
     }
 
     // ------------------------------------------------------------------ function body
@@ -211,7 +270,12 @@ impl<'g> Cx<'g> {
     pub fn ret_doc(&mut self, e: Option<&syn::Expr>, early: bool, span: proc_macro2::Span, stmts: &mut Vec<Stmt>) -> R<Doc> {
         let wrap = |cx: &Cx, v: &str| -> Doc {
             if early {
-                Doc::atom(format!("Exec.ret {}", cx.payload(v)))
+                // inside `while` bodies the early-exit channel carries `LoopExit` values
+                let mut p = cx.payload(v);
+                for _ in 0..cx.loop_stack.len() {
+                    p = format!("(RustSem.LoopExit.ret {})", p);
+                }
+                Doc::atom(format!("Exec.ret {}", p))
             } else {
                 Doc::atom(format!("pure {}", cx.payload(v)))
             }
@@ -293,9 +357,11 @@ impl<'g> Cx<'g> {
 
     pub fn items(&mut self, items: &[syn::Stmt], tail: &Tail, binds: &[(String, Ty)], span: proc_macro2::Span) -> R<(Doc, Ty, bool)> {
         self.scopes.push(binds.to_vec());
+        self.aliases.push(Vec::new());
         let saved_globs = self.glob_enums.len();
         let r = self.items_inner(items, tail, span);
         self.glob_enums.truncate(saved_globs);
+        self.aliases.pop();
         self.scopes.pop();
         r
     }
@@ -440,6 +506,22 @@ impl<'g> Cx<'g> {
             Some(i) => return self.bail(i.expr.span(), "`let … else` is not supported"),
             None => return self.bail(l.span(), "`let` without initialiser is not supported"),
         };
+        // `let x = &mut place;` : `x` is an alias of the place
+        if let syn::Expr::Reference(r) = &**init {
+            if r.mutability.is_some() {
+                let name = match pat {
+                    syn::Pat::Ident(pi) if pi.subpat.is_none() && pi.by_ref.is_none() => pi.ident.to_string(),
+                    other => return self.bail(other.span(), "`let <pattern> = &mut place` needs a plain variable"),
+                };
+                self.check_local_name(&name, pat.span())?;
+                let place = self.place(&r.expr, stmts)?;
+                // taking the reference evaluates (bounds-checks) the place once
+                let _ = self.read(&place, stmts)?;
+                self.declare(&name, place.ty());
+                self.aliases.last_mut().unwrap().push((name, place));
+                return Ok(());
+            }
+        }
         // initialiser that diverges in an arm (`match … { _ => return … }`) is handled by expr()
         let (v, t) = self.expr(init, annot.as_ref(), stmts)?;
         let ty = annot.unwrap_or(t);
@@ -476,7 +558,12 @@ impl<'g> Cx<'g> {
             syn::Expr::Assign(a) => {
                 let place = self.place(&a.left, stmts)?;
                 let pt = place.ty();
-                let (v, _) = self.expr(&a.right, Some(&pt), stmts)?;
+                let (v, vt) = self.expr(&a.right, Some(&pt), stmts)?;
+                if let Place::Var(n, _) = &place {
+                    if (pt.has_unknown() || matches!(pt, Ty::IntAny)) && !vt.has_unknown() && !matches!(vt, Ty::IntAny) {
+                        self.retype(n, vt);
+                    }
+                }
                 self.write(&place, v, stmts)?;
                 Ok(None)
             }
@@ -519,8 +606,20 @@ impl<'g> Cx<'g> {
                 self.mutating_call(mc, stmts)?;
                 Ok(None)
             }
-            syn::Expr::While(_) | syn::Expr::Loop(_) | syn::Expr::Break(_) | syn::Expr::Continue(_) => {
-                self.bail(e.span(), "`while` / `loop` / `break` / `continue` are not supported")
+            syn::Expr::While(w) => {
+                self.while_loop(w, stmts)?;
+                Ok(None)
+            }
+            syn::Expr::Continue(c) if c.label.is_none() => match self.loop_stack.last() {
+                Some(m) => Ok(Some(Doc::atom(format!("Exec.ret (RustSem.LoopExit.cont {})", Self::tuple_val(m))))),
+                None => self.bail(e.span(), "`continue` outside a `while` loop (not supported in `for`)"),
+            },
+            syn::Expr::Break(b) if b.label.is_none() && b.expr.is_none() => match self.loop_stack.last() {
+                Some(m) => Ok(Some(Doc::atom(format!("Exec.ret (RustSem.LoopExit.brk {})", Self::tuple_val(m))))),
+                None => self.bail(e.span(), "`break` outside a `while` loop (not supported in `for`)"),
+            },
+            syn::Expr::Loop(_) | syn::Expr::Break(_) | syn::Expr::Continue(_) => {
+                self.bail(e.span(), "`loop`, labelled or valued `break` / `continue` are not supported")
             }
             _ => {
                 let (v, _) = self.expr(e, None, stmts)?;
@@ -628,7 +727,65 @@ impl<'g> Cx<'g> {
         Ok((Doc::Match(scrut, arms), ty))
     }
 
+    /// `while cond { body }` with manifest fuel
+    fn while_loop(&mut self, w: &syn::ExprWhile, stmts: &mut Vec<Stmt>) -> R<()> {
+        if w.label.is_some() {
+            return self.bail(w.span(), "labelled loops are not supported");
+        }
+        if let syn::Expr::Let(_) = &*w.cond {
+            return self.bail(w.span(), "`while let` is not supported");
+        }
+        let fuel_src = match self.fuels.get(self.fuel_next) {
+            Some(f) => f.clone(),
+            None => {
+                return self.bail(
+                    w.span(),
+                    "`while` loop without a fuel expression in the manifest (WHILE_FUEL lists one Rust expression per loop)",
+                )
+            }
+        };
+        self.fuel_next += 1;
+        let fuel_expr: syn::Expr = match syn::parse_str(&fuel_src) {
+            Ok(e) => e,
+            Err(_) => return self.bail(w.span(), format!("cannot parse the manifest fuel expression `{}`", fuel_src)),
+        };
+        let whole = syn::Expr::While(w.clone());
+        let m = self.assigned_in_expr(&whole);
+        // fuel is evaluated once, at loop entry
+        let (fuel, ft) = self.expr(&fuel_expr, Some(&Ty::usize()), stmts)?;
+        if !ft.is_int() {
+            return self.bail(w.span(), "fuel expression is not an integer");
+        }
+        let site = format!("\"{}:{}: fuel exhausted\"", self.file, self.fn_disp);
+        self.loop_stack.push(m.clone());
+        let r = (|| -> R<Doc> {
+            let mut cs: Vec<Stmt> = Vec::new();
+            let (c, ct) = self.expr(&w.cond, Some(&Ty::Bool), &mut cs)?;
+            if !matches!(ct, Ty::Bool) {
+                return self.bail(w.cond.span(), "`while` condition is not a bool");
+            }
+            let (body, _, _) = self.block(&w.body, &Tail::Unit(m.clone()), &[])?;
+            let brk = Doc::atom(format!("Exec.ret (RustSem.LoopExit.brk {})", Self::tuple_val(&m)));
+            Ok(Doc::seq(cs, Doc::If(c, Box::new(body), Box::new(brk))))
+        })();
+        self.loop_stack.pop();
+        let body = r?;
+        self.note_dirty(&m);
+        stmts.push(Stmt::Bind(
+            Self::tuple_pat(&m),
+            Doc::Lam(
+                format!("RustSem.whileFuel {} {} {}", fuel, site, Self::tuple_val(&m)),
+                format!("fun {}", Self::tuple_pat(&m)),
+                Box::new(body),
+            ),
+        ));
+        Ok(())
+    }
+
     fn for_loop(&mut self, f: &syn::ExprForLoop, stmts: &mut Vec<Stmt>) -> R<()> {
+        if !self.loop_stack.is_empty() {
+            // a `for` nested in a `while`: `return` inside is fine (passes through), `continue`/`break` are rejected below
+        }
         if f.label.is_some() {
             return self.bail(f.span(), "labelled loops are not supported");
         }
@@ -652,6 +809,7 @@ impl<'g> Cx<'g> {
             fn visit_expr_continue(&mut self, _: &'ast syn::ExprContinue) {
                 self.0 = true;
             }
+            fn visit_expr_while(&mut self, _: &'ast syn::ExprWhile) {}
         }
         let mut hb = HasBreak(false);
         hb.visit_block(&f.body);
@@ -691,6 +849,15 @@ impl<'g> Cx<'g> {
             }
             other => {
                 // `for x in list` / `&list` / `list.iter()`
+                // `list.iter().enumerate()`
+                let mut enumerate = false;
+                let other = match other {
+                    syn::Expr::MethodCall(mc) if mc.method == "enumerate" && mc.args.is_empty() => {
+                        enumerate = true;
+                        &*mc.receiver
+                    }
+                    o => o,
+                };
                 let inner = match other {
                     syn::Expr::MethodCall(mc) if mc.method == "iter" && mc.args.is_empty() => &*mc.receiver,
                     syn::Expr::Reference(r) if r.mutability.is_none() => &*r.expr,
@@ -699,8 +866,9 @@ impl<'g> Cx<'g> {
                 let (l, lt) = self.expr(inner, None, stmts)?;
                 let et = match lt {
                     Ty::List(e, _) => *e,
-                    _ => return self.bail(other.span(), "unsupported `for` iterator (ranges and lists only)"),
+                    _ => return self.bail(other.span(), "unsupported `for` iterator (ranges, lists, `.iter()`, `.iter().enumerate()` only)"),
                 };
+                let (l, et) = if enumerate { (format!("(RustSem.enumerate {})", l), Ty::Tuple(vec![Ty::usize(), et])) } else { (l, et) };
                 let (lv, binds) = if var == "(tuple)" {
                     let (p, b) = self.pat(&f.pat, &et)?;
                     for (n, _) in &b {
@@ -732,6 +900,9 @@ impl<'g> Cx<'g> {
             syn::Expr::Unary(u) if matches!(u.op, syn::UnOp::Deref(_)) => self.place(&u.expr, stmts),
             syn::Expr::Path(p) if p.qself.is_none() && p.path.segments.len() == 1 => {
                 let n = p.path.segments[0].ident.to_string();
+                if let Some(pl) = self.alias_of(&n) {
+                    return Ok(pl);
+                }
                 match self.lookup(&n) {
                     Some(t) => Ok(Place::Var(n, t)),
                     None => self.bail(e.span(), format!("assignment to unknown variable `{}`", n)),
@@ -769,6 +940,9 @@ impl<'g> Cx<'g> {
                     if let Some((fname, fty)) = s.fields.iter().find(|(f, _)| id == f) {
                         return Ok((fname.clone(), fty.clone()));
                     }
+                }
+                if self.g.structs.get(n).map(|s| s.view).unwrap_or(false) {
+                    return self.bail(span, format!("field `{}` is not part of the struct view of `{}` (manifest)", id, n));
                 }
                 self.bail(span, format!("unknown field `{}` of `{}`", id, n))
             }
@@ -910,6 +1084,21 @@ impl<'g> Cx<'g> {
                 let lt = place.ty();
                 let (x, _) = self.expr(args[0], Some(&lt), stmts)?;
                 format!("RustSem.extend_from_slice {} {}", cur, x)
+            }
+            ("insert", 2) => {
+                let (i, _) = self.expr(args[0], Some(&Ty::usize()), stmts)?;
+                let (x, _) = self.expr(args[1], Some(&et), stmts)?;
+                let site = self.site(mc);
+                let t = self.fresh();
+                stmts.push(Stmt::Bind(t.clone(), Doc::atom(format!("RustSem.vec_insert {} {} {} {}", cur, i, x, site))));
+                return self.write(&place, t, stmts);
+            }
+            ("remove", 1) => {
+                let (i, _) = self.expr(args[0], Some(&Ty::usize()), stmts)?;
+                let site = self.site(mc);
+                let t = self.fresh();
+                stmts.push(Stmt::Bind(t.clone(), Doc::atom(format!("RustSem.vec_remove {} {} {}", cur, i, site))));
+                return self.write(&place, t, stmts);
             }
             ("clear", 0) => "[]".to_string(),
             ("reverse", 0) => format!("List.reverse {}", cur),
